@@ -337,6 +337,23 @@ class C08(Check):
             classes_extra.append('batch-object/second-round-trip')
             reply[0] = text
 
+        # (4) the caller keeps NO reference to the requests it sends (built inline, the usual way): the link is the response's own -
+        # every accepted response still leads to the request it answers (same id, method and parameters)
+        if not discs and judged and verdict == 'ok':
+            client4 = ch.make_client(kind, transport, strict=strict)
+            try:
+                resp4 = ch.call(kind, lambda: client4.batch.send(pjrpc.BatchRequest(
+                    *[pjrpc.Request(f'm{i}', [i], id=c['id']) for i, c in enumerate(calls)], *[pjrpc.Request('note', [i]) for i in range(spec['notifications'])])))
+                for k, c in enumerate(calls):
+                    rel = resp4[k].related
+                    if rel is None or not typed_eq(rel.id, c['id']) or rel.method != f'm{k}' or not jg.jeq(rel.params, [k]):
+                        discs.append(Disc("C08/send/related-not-linked/request-not-kept-by-the-caller",
+                                          f"position {k}: related {rel!r}, expected the request m{k}([{k}]) with id {c['id']!r} | {where}"))
+                        break
+            except Exception as e:
+                discs.append(Disc(f"C08/send/unexpected-exception/{type(e).__name__}", f"inline batch: {e!r} | {where}"))
+            classes_extra.append('requests/not-kept-by-the-caller')
+
         classes = [f"verdict/{verdict}", 'strict/on' if strict else 'strict/off', f"client/{kind}", f"n={len(calls)}"] + classes_extra
         for op in spec['program']:
             classes.append(f"op/{op[0]}")
@@ -481,6 +498,14 @@ class C08(Check):
                     discs.append(Disc(f"C08/single/send/unexpected-exception/{type(e).__name__}", f"{e!r} | {where}"))
                 elif v.related is not req:
                     discs.append(Disc("C08/single/send/related-not-linked", f"{v.related!r} | {where}"))
+                else:
+                    # the same exchange with a request the caller does not keep a reference to
+                    try:
+                        rel_inline = ch.call(kind, lambda: client.send(pjrpc.Request('m', [1], id=rid))).related
+                        if rel_inline is None or not typed_eq(rel_inline.id, rid) or rel_inline.method != 'm':
+                            discs.append(Disc("C08/single/send/related-not-linked/request-not-kept-by-the-caller", f"{rel_inline!r} | {where}"))
+                    except Exception as e2:
+                        discs.append(Disc(f"C08/single/send/unexpected-exception/{type(e2).__name__}", f"inline request: {e2!r} | {where}"))
         rel_class = {'bool': 'type-confused', 'float': 'type-confused'}.get(rel, rel)
         classes = ['mode/single', f"single/{rel_class}", 'strict/on' if strict else 'strict/off', f"client/{kind}"]
         return Outcome(discs, rel != 'equal' or shape not in ('result',), classes, evaluations=2)
